@@ -15,4 +15,4 @@ class Date(internal.SingleValueRawTokenModel[datetime.date]):
 
     @classmethod
     def _format_value(cls, value: datetime.date) -> str:
-        return value.strftime('%Y-%m-%d')
+        return f'{value.year:04}-{value.month:02}-{value.day:02}'  # strftime does not pad years < 1000
